@@ -3,6 +3,9 @@ package props
 import (
 	"context"
 	"fmt"
+	"sync"
+	"sync/atomic"
+	"time"
 
 	"github.com/form3tech-oss/f1/v2/internal/metrics"
 	"github.com/form3tech-oss/f1/v2/pkg/f1"
@@ -107,9 +110,17 @@ func init() {
 				cse.TimeoutMS = 60000
 				cs = append(cs, cse)
 			}
+			// an iteration that is still inside its first component when the run gives up waiting and tears the scenario down
+			for i := 0; i < map[string]int{"quick": 4, "thorough": 24}[tier]; i++ {
+				cse := core.MkCase("C20", "overlap", i, seed, map[string]int{"comps": 2 + r.IntN(4), "conc": 2 + r.IntN(3), "nest": i % 2, "ending": i / 2 % 2})
+				cse.Race = i%2 == 0
+				cse.Procs = pick(r, 2, 16)
+				cse.TimeoutMS = 60000
+				cs = append(cs, cse)
+			}
 			return cs
 		},
-		Kinds:  map[string]core.RunFunc{"combine": c20Run},
+		Kinds:  map[string]core.RunFunc{"combine": c20Run, "overlap": c20Overlap},
 		Floors: map[string]int64{"iterations_checked": 500, "iterations_cut_by_stopping_component": 100, "setup_fault_runs": 10},
 	})
 }
@@ -335,4 +346,97 @@ func c20Once(c *core.Case, o *core.Outcome, p *c20Params, spec engine.Spec, l *e
 		o.Sig("n=%d:faulty=%d:cut=%v:conc=%d:mode=%s:nested=%v:quiet=%v", len(p.Comps), faulty, cutCount > 0, p.Conc, p.Mode, p.Nest > 0, p.Quiet)
 	}
 	o.Sample = map[string]any{"case": desc, "iterations": len(its), "cut": cutCount, "failed": wantFail}
+}
+
+// c20Overlap: the first iteration stays inside the first component until the scenario's teardown has begun (the run ended
+// by its limit or by an interrupt, waited its completion timeout of 150 ms and gave up on it). That iteration then goes
+// on: it still invokes every component, in order, with its own handle - nothing stopped it.
+func c20Overlap(c *core.Case, o *core.Outcome) {
+	var pp map[string]int
+	c.Params(&pp)
+	nc := pp["comps"]
+	l := engine.NewLog()
+	teardown := make(chan struct{})
+	var once sync.Once
+	ctx, cancel := context.WithCancel(context.Background())
+	defer cancel()
+	var started atomic.Int64
+	var comps []f1testing.ScenarioFn
+	for i := 0; i < nc; i++ {
+		i := i
+		comps = append(comps, func(t *f1testing.T) f1testing.RunFn {
+			if i == 0 {
+				t.Cleanup(func() { once.Do(func() { close(teardown) }) })
+			}
+			return func(t *f1testing.T) {
+				if i == 0 {
+					n := started.Add(1)
+					if n == 1 {
+						l.Add("iter", engine.HandleID(t), "first", int64(i), "")
+						<-teardown
+						time.Sleep(20 * time.Millisecond)
+						return
+					}
+					if pp["ending"] == 1 && n == 4 {
+						cancel()
+					}
+				}
+				l.Add("iter", engine.HandleID(t), t.Iteration, int64(i), "")
+			}
+		})
+	}
+	combined := f1.CombineScenarios(comps...)
+	if pp["nest"] == 1 {
+		combined, _ = c20Nest(comps, c.Rng("nest"), 1)
+	}
+	spec := engine.Spec{Mode: "users", Concurrency: pp["conc"], MaxDurationMS: 30000, MaxIterations: 12, IgnoreDropped: true, CompletionMS: 150}
+	r := engine.Execute(ctx, spec, l, combined, nil, nil)
+	if r.NewErr != nil {
+		o.Inconc("harness: cannot build run: %v", r.NewErr)
+		return
+	}
+	select {
+	case <-teardown:
+	case <-time.After(5 * time.Second):
+		o.Inconc("the scenario was not torn down")
+		return
+	}
+	// the first iteration's handle: what it invoked after the teardown began
+	var h string
+	deadline := time.Now().Add(5 * time.Second)
+	var seen []int64
+	for {
+		seen = seen[:0]
+		for _, e := range l.Events() {
+			if e.Kind == "iter" && e.ID == "first" {
+				h = e.H
+			}
+		}
+		var firstSeq int64 = -1
+		for _, e := range l.Events() {
+			if e.Kind == "iter" && e.ID == "first" {
+				firstSeq = e.Seq
+				seen = append(seen, e.V)
+			} else if e.Kind == "iter" && e.H == h && firstSeq >= 0 && e.Seq > firstSeq && len(seen) < nc && e.V == int64(len(seen)) {
+				seen = append(seen, e.V)
+			}
+		}
+		if len(seen) == nc || time.Now().After(deadline) {
+			break
+		}
+		time.Sleep(20 * time.Millisecond)
+	}
+	o.Events = int64(l.Len())
+	desc := fmt.Sprintf("%d components (nested=%v), %d users, ended by %s, completion timeout 150 ms", nc, pp["nest"] == 1, pp["conc"], map[int]string{0: "its limit", 1: "an interrupt"}[pp["ending"]])
+	if h == "" {
+		o.Inconc("the first iteration never started (%s)", desc)
+		return
+	}
+	if len(seen) != nc {
+		o.Violate("overlap:"+desc, "the first iteration was inside component 0 when the scenario's teardown began and went on 20 ms later; within 5 s it invoked components %v, expected all of 0..%d in order: an iteration that nothing stopped did not invoke every component (%s)", seen, nc-1, desc)
+		return
+	}
+	o.AddObs("overlap_iterations_checked", 1)
+	o.Sig("overlap:n=%d:nested=%v:ending=%d", nc, pp["nest"] == 1, pp["ending"])
+	o.Sample = map[string]any{"case": desc, "components_invoked_by_the_overlapping_iteration": seen}
 }
